@@ -14,12 +14,12 @@ MANIFEST_META = {
         "guard": "verif",
         "enable": "go test -c -tags verif in /verif/harness (module verifharness, replace github.com/benbjohnson/litestream => /repo)",
         "baseline_off_cmd": "/verif/tools/baseline.sh",
-        "source_commits": ["18eadf4", "6fb4a7e"],
+        "source_commits": ["18eadf4", "6fb4a7e", "c6fb1fc"],
         "add_only": True,
     },
     "not_applicable": {},
     "pending_reason": "check not built yet in this session (see DESIGN.md section 4 for the planned generated-input check); not claimed until it runs silently on the unchanged tree",
-    "notes": "Hook commits in /repo: 18eadf4 (WALReader.VerifPageMap), 6fb4a7e (VFSFile.VerifPoll). Genuine defects found by the checks were repaired with separate fix: commits in /repo (listed as fixed: lines in known_findings.txt); defects recorded rather than repaired are the finding: lines there. See DESIGN.md sections 9-11.",
+    "notes": "Hook commits in /repo: 18eadf4 (WALReader.VerifPageMap), 6fb4a7e (VFSFile.VerifPoll), c6fb1fc (verifPhase: phase hook points in the sync/checkpoint/snapshot/close pipeline; an empty function without the verif tag). Genuine defects found by the checks were repaired with separate fix: commits in /repo (listed as fixed: lines in known_findings.txt); defects recorded rather than repaired are the finding: lines there. See DESIGN.md sections 9-11.",
 }
 
 PROPS = {
@@ -60,7 +60,14 @@ PROPS = {
                  "page size x auto_vacuum x cache size x thresholds; R1 page oracle after every acknowledged step. Non-trivial = "
                  "before an acknowledged step the history had a WAL restart since the previous ack, a shrink followed by growth, "
                  "an app checkpoint while litestream was running, an ack inside an open app transaction, an ack with spilled "
-                 "uncommitted frames in the WAL, or a chunked sync; distinct = hash of (config, abstracted op sequence)."),
+                 "uncommitted frames in the WAL, or a chunked sync; distinct = hash of (config, abstracted op sequence). The second run "
+                 "(interleaved) attaches to litestream operations 1-3 entries (phase, occurrence, application ops) executed by the harness "
+                 "inside litestream's own pipeline through the verif phase hook (24 hook points from verify to the checkpoint boundary "
+                 "snapshot and Close's lock release): commits between the sealed sync and the checkpoint, write locks held while litestream "
+                 "bumps its sequence row or takes its boundary lock, readers, app checkpoints; plus checkpoint episodes built from these. An "
+                 "acknowledgement during which the application committed is checked against the window of states committed before/while the "
+                 "call ran (logical digest + integrity_check), every other one with the page oracle. There, non-trivial also = an application "
+                 "transaction committed or took the write lock inside a hook."),
         "assumptions": ["file replica client only", "litestream's background monitors are off; the harness is the only caller (schedules at statement granularity)",
                         "reference image = SQLite's own recovery+checkpoint of a copy of (db, db-wal)"],
         "runs": [
